@@ -217,9 +217,9 @@ def check_second_save(pjob, rec, acc, case):
         # the first save decompiled tables it had already passed through raw (see ASSUMPTIONS):
         # tables already loaded before the first save must still be stable...
         diff = _difftables(None, tx, None, ty)
-        bad = [t for t in diff if t not in loaded_by_save and t != "head"]
-        if "head" in diff and hx and hy and _headfields(hx)[0] != _headfields(hy)[0] and "head" not in loaded_by_save:
-            bad.append("head")
+        # tables whose compile() recalculates from a table the save has just decompiled (bounding boxes, metrics
+        # counts, offsets) follow it: head/hhea/vhea/maxp/loca/OS/2
+        bad = [t for t in diff if t not in loaded_by_save and t not in ("head", "hhea", "vhea", "maxp", "loca", "OS/2")]
         if bad:
             acc.fail("second-save", "second-save-differs:%s" % _first_tag(bad), "%s: tables %s were decompiled before the first save and differ in the second save (tables loaded by the save itself: %s)" % (pjob["name"], bad, loaded_by_save), case)
             return False
